@@ -76,6 +76,7 @@ Record variant := {
   v_assign_seekp : bool;          (* get-assignment: seekp(-1) also on the empty list (a lone closing parenthesis) *)
   v_assign_format : bool;         (* get-assignment: the answer is passed to notify_formatted as the format *)
   v_echo_raw : bool;              (* get-value echo prints raw names, streams NULL for (as ..) nodes, glues "(!" *)
+  v_echo_bang_glued : bool;       (* get-value echo: `(!` glued to the named term (regression issue_617 pins `(!(+ x 1) ..`) *)
   v_core_raw : bool }.            (* get-unsat-core prints raw names *)
 
 (* the working tree, as the translator reads it *)
@@ -85,7 +86,8 @@ Definition faithful : variant :=
      v_default_raw := gen_default_definition_raw_name; v_create_any := gen_formal_args_unchecked;
      v_formal_by_term := gen_clash_by_term;
      v_assign_raw := gen_assignment_raw_names; v_assign_seekp := gen_assignment_seekp_unguarded;
-     v_assign_format := gen_assignment_text_as_format; v_echo_raw := gen_echo_raw_names; v_core_raw := gen_core_raw_names |}.
+     v_assign_format := gen_assignment_text_as_format; v_echo_raw := gen_echo_raw_names; v_echo_bang_glued := gen_echo_bang_glued;
+     v_core_raw := gen_core_raw_names |}.
 
 (* the pinned commit, written out: the refutations are stated about it and stay true when the tree is repaired;
    Properties_C17.model_is_pinned_code records that the working tree still is this variant *)
@@ -95,14 +97,14 @@ Definition pinned_tokenNames : list string :=
 Definition pinned : variant :=
   {| v_table := pinned_tokenNames; v_quote_empty := false; v_quote_minus_digit := false;
      v_view_key_bug := true; v_sort_raw := true; v_default_raw := true; v_create_any := true; v_formal_by_term := true;
-     v_assign_raw := true; v_assign_seekp := true; v_assign_format := true; v_echo_raw := true; v_core_raw := true |}.
+     v_assign_raw := true; v_assign_seekp := true; v_assign_format := true; v_echo_raw := true; v_echo_bang_glued := true; v_core_raw := true |}.
 
 (* the tree when this file was last brought up to date: the pinned commit plus the repairs applied since
    (36568bf: get-assignment guards the seekp and passes the answer as an argument of "%s") *)
 Definition current : variant :=
   {| v_table := pinned_tokenNames; v_quote_empty := false; v_quote_minus_digit := false;
      v_view_key_bug := true; v_sort_raw := true; v_default_raw := true; v_create_any := true; v_formal_by_term := true;
-     v_assign_raw := true; v_assign_seekp := false; v_assign_format := false; v_echo_raw := true; v_core_raw := true |}.
+     v_assign_raw := true; v_assign_seekp := false; v_assign_format := false; v_echo_raw := true; v_echo_bang_glued := true; v_core_raw := true |}.
 
 (* the table after proposed_fixes/C17_series/01_protect_name: the words both lexers reserve and the table lacked *)
 Definition series_tokenNames : list string :=
@@ -117,7 +119,7 @@ Definition missing_reserved : list string :=
 Definition repaired : variant :=
   {| v_table := gen_tokenNames ++ missing_reserved; v_quote_empty := true; v_quote_minus_digit := true;
      v_view_key_bug := false; v_sort_raw := false; v_default_raw := false; v_create_any := false; v_formal_by_term := false;
-     v_assign_raw := false; v_assign_seekp := false; v_assign_format := false; v_echo_raw := false; v_core_raw := false |}.
+     v_assign_raw := false; v_assign_seekp := false; v_assign_format := false; v_echo_raw := false; v_echo_bang_glued := false; v_core_raw := false |}.
 
 (* ---------------------------------------------------------------------------------------------
    Logic::hasQuotableChars, isReservedWord, protectName *)
@@ -449,7 +451,7 @@ Fixpoint echo (v : variant) (a : ast) : out :=
               end in
     o_concat [o_str "("; hd; o_str " "; o_sep " " (map (echo v) args); o_str ")"]
   | A_bang t name =>
-    o_concat [o_str (if v_echo_raw v then "(!" else "(! "); echo v t; o_str (" :named " ++ nm name ++ ")")]
+    o_concat [o_str (if v_echo_bang_glued v then "(!" else "(! "); echo v t; o_str (" :named " ++ nm name ++ ")")]
   | A_let bs body =>
     o_concat [o_str "(let ("; o_sep " " (map (fun b => o_concat [o_str ("(" ++ nm (fst b) ++ " "); echo v (snd b); o_str ")"]) bs);
               o_str ") "; echo v body; o_str ")"]
